@@ -242,3 +242,522 @@ ok("C13", "tolerant floor written with an additive epsilon", _sub(
     'quot = (end_time - self._start_time)/self._parameters.dt\n        end_step = int(np.floor(quot + 1.0e-9))'))
 ok("C13", "final-only label via a temporary", _sub(
     SD, '        times = [start_time + num_steps*dt]\n\n    return Dynamics(', '        final_time = start_time + dt*num_steps\n        times = [final_time]\n\n    return Dynamics('))
+
+# ------------------------------------------------------------------ C14 / C11
+brk("C14", "TempoBackend.compute_step bumps the counter first again", "T3", _sub(
+    TB, '        next_step = self._step + 1\n        prop_1, prop_2 = self._propagators(self._step)\n        self._state = self.compute_system_step(next_step, prop_1, prop_2)\n        self._step = next_step\n',
+    '        self._step += 1\n        prop_1, prop_2 = self._propagators(self._step - 1)\n        self._state = self.compute_system_step(self._step, prop_1, prop_2)\n'))
+brk("C14", "TempoBackend.compute_step records state before calling the propagators", "T3", _sub(
+    TB, '        next_step = self._step + 1\n        prop_1, prop_2 = self._propagators(self._step)\n',
+    '        next_step = self._step + 1\n        self._state = None\n        prop_1, prop_2 = self._propagators(self._step)\n'))
+brk("C14", "TIBaseBackend.initialise appends before the coefficient request", "T3", _sub(
+    TB, '            free_prop = np.dot(tensor, self._prop.T)\n', '            free_prop = np.dot(tensor, self._prop.T)\n            self.data.append(free_prop)\n'))
+brk("C14", "GibbsTempo.compute takes a fixed number of steps", "T1", _sub(
+    TE, '        num_step = max(\n            0, self._parameters.n_steps - 1 - self._backend_instance.step)', '        num_step = self._parameters.n_steps - 2'))
+brk("C14", "PtTempo.compute steps before checking", "T1", _sub(
+    PTT, '            while self._backend_instance.step \\\n                    < self._backend_instance.num_steps:\n                self._backend_instance.compute_step()\n',
+    '            while self._backend_instance.compute_step():\n'))
+brk("C14", "Tempo.compute ignores the steps already taken", "T1", _sub(
+    TE, '        num_step = max(0, end_step - start_step)\n        return num_step\n\n    @property', '        num_step = max(0, end_step)\n        return num_step\n\n    @property'))
+brk("C14", "PtTebd.compute loops a fixed count", "T1", _sub(
+    TEBD, '            while self.step < tmp_end_step:\n                self.compute_step()', '            for _ in range(tmp_end_step):\n                self.compute_step()'))
+brk("C14", "get_dynamics recomputes on every fetch", "T2", _sub(
+    TE, '        """Returns the instance of Dynamics associated with the Tempo object.\n        """\n        return self._dynamics',
+    '        """Returns the instance of Dynamics associated with the Tempo object.\n        """\n        self._backend_instance.compute_step()\n        return self._dynamics'))
+brk("C14", "get_process_tensor updates unconditionally", "T2", _sub(
+    PTT, '        if len(self._process_tensor) < self._backend_instance.num_steps:\n            self._backend_instance.update_process_tensor()', '        self._backend_instance.update_process_tensor()'))
+brk("C14", "get_augmented_mps drops the last lambda", "T4", _sub(
+    TEBD, '        for i in range(self._t_mps.n - 1):\n            lambdas.append', '        for i in range(self._t_mps.n - 2):\n            lambdas.append'))
+brk("C14", "get_lambda returns the boundary identity", "T4", _sub(
+    TEBDB, 'return self._lambdas[site+1].get_tensor()', 'return self._lambdas[site].get_tensor()'))
+ok("C14", "TempoBackend.compute_step: temporaries renamed and hoisted", _sub(
+    TB, '        next_step = self._step + 1\n        prop_1, prop_2 = self._propagators(self._step)\n        self._state = self.compute_system_step(next_step, prop_1, prop_2)\n        self._step = next_step\n',
+    '        k = self._step\n        props = self._propagators(k)\n        new_state = self.compute_system_step(k + 1, props[0], props[1])\n        self._state = new_state\n        self._step = k + 1\n'))
+ok("C14", "PtTempo.compute: while loop with hoisted backend", _sub(
+    PTT, '            while self._backend_instance.step \\\n                    < self._backend_instance.num_steps:\n                self._backend_instance.compute_step()\n',
+    '            while self._backend_instance.num_steps > self._backend_instance.step:\n                self._backend_instance.compute_step()\n'))
+
+brk("C11", "GibbsTempo.compute takes a fixed number of steps", "K1", _sub(
+    TE, '        num_step = max(\n            0, self._parameters.n_steps - 1 - self._backend_instance.step)', '        num_step = self._parameters.n_steps - 2'))
+brk("C11", "get_state forgets to normalise", "K2", _sub(
+    TE, '        state = state / state.trace()\n', ''))
+brk("C11", "get_state normalises by the wrong matrix", "K2", _sub(
+    TE, '        state = state / state.trace()\n', '        state = state / self._dynamics.states[0].trace()\n'))
+brk("C11", "gibbs_tempo_compute returns the raw last state", "K2", _sub(
+    TE, '    return gibbs_tempo.get_state()', '    return gibbs_tempo.get_dynamics().states[-1]'))
+brk("C11", "time_step_length without n_steps", "K3", _sub(
+    TE, 'return 1 / (temperature * self._n_steps)', 'return 1 / temperature'))
+brk("C11", "new Gibbs states labelled one slice early", "K3", _sub(
+    TE, 'self._dynamics.add(self._time(step+1), state)', 'self._dynamics.add(self._time(step), state)'))
+brk("C11", "Gibbs loop bound one slice short", "K3", _sub(
+    TE, '0, self._parameters.n_steps - 1 - self._backend_instance.step)', '0, self._parameters.n_steps - 2 - self._backend_instance.step)'))
+
+# ------------------------------------------------------------------ C16
+brk("C16", "set_initial_tensor loses its else branch", "X3", _sub(
+    PT, '            self._initial_tensor = None\n        else:\n            self._initial_tensor = np.array(initial_tensor, dtype=NpDtype)',
+    '            self._initial_tensor = None\n            self._initial_tensor = np.array(initial_tensor, dtype=NpDtype)'))
+brk("C16", "reader looks for a dataset the writer never creates", "X1", _sub(
+    PT, 'self._cap_tensors_shape = self._f["cap_tensors_shape"]', 'self._cap_tensors_shape = self._f["cap_tensor_shapes"]'))
+brk("C16", "reader binds mpo shapes to the cap attribute", "X1", _multi(
+    _sub(PT, 'self._mpo_tensors_shape = self._f["mpo_tensors_shape"]', 'self._mpo_tensors_shape = self._f["cap_tensors_shape"]'),
+    _sub(PT, 'self._cap_tensors_shape = self._f["cap_tensors_shape"]', 'self._cap_tensors_shape = self._f["mpo_tensors_shape"]')))
+brk("C16", "export forgets the caps", "X2", _sub(
+    PT, '        for step, cap in enumerate(self._cap_tensors):\n            pt_file.set_cap_tensor(step, cap)\n', ''))
+brk("C16", "export swaps the transforms", "X2", _sub(
+    PT, '            transform_in=self._transform_in,\n            transform_out=self._transform_out,\n            name=self.name,\n            description=self.description)\n\n        pt_file.set_initial_tensor',
+    '            transform_in=self._transform_out,\n            transform_out=self._transform_in,\n            name=self.name,\n            description=self.description)\n\n        pt_file.set_initial_tensor'))
+brk("C16", "import drops dt", "X2", _sub(
+    PT, '            dt=pt_file.dt,\n', ''))
+brk("C16", "import copies transformed tensors", "X5", _sub(
+    PT, 'mpo = pt_file.get_mpo_tensor(step, transformed=False)', 'mpo = pt_file.get_mpo_tensor(step)'))
+brk("C16", "file get_mpo_tensor applies transform_out first", "X5", _sub(
+    PT, '''            if self._transform_in is not None:
+                tensor = np.dot(np.moveaxis(tensor, -2, -1),
+                                self._transform_in.T)
+                tensor = np.moveaxis(tensor, -1, -2)
+            if self._transform_out is not None:
+                tensor = np.dot(tensor, self._transform_out)
+        return tensor
+
+    def get_cap_tensor''', '''            if self._transform_out is not None:
+                tensor = np.dot(tensor, self._transform_out)
+            if self._transform_in is not None:
+                tensor = np.dot(np.moveaxis(tensor, -2, -1),
+                                self._transform_in.T)
+                tensor = np.moveaxis(tensor, -1, -2)
+        return tensor
+
+    def get_cap_tensor'''))
+brk("C16", "file get_mpo_tensor forgets the transpose of transform_in", "X5", _sub(
+    PT, '''                tensor = np.dot(np.moveaxis(tensor, -2, -1),
+                                self._transform_in.T)
+                tensor = np.moveaxis(tensor, -1, -2)
+            if self._transform_out is not None:
+                tensor = np.dot(tensor, self._transform_out)
+        return tensor
+
+    def get_cap_tensor''', '''                tensor = np.dot(np.moveaxis(tensor, -2, -1),
+                                self._transform_in)
+                tensor = np.moveaxis(tensor, -1, -2)
+            if self._transform_out is not None:
+                tensor = np.dot(tensor, self._transform_out)
+        return tensor
+
+    def get_cap_tensor'''))
+brk("C16", "shape stored after flattening", "X4", _sub(
+    PT, '    shape[step] = tensor.shape\n    tensor = tensor.reshape(-1)\n', '    tensor = tensor.reshape(-1)\n    shape[step] = tensor.shape\n'))
+brk("C16", "data written one slot off", "X4", _sub(
+    PT, '    data[step] = tensor\n', '    data[step-1] = tensor\n'))
+brk("C16", "file process tensor built without dt", "X6", _sub(
+    PTT, '            hilbert_space_dimension=self._dimension,\n            dt=self._parameters.dt,\n            transform_in=transform_in,\n            transform_out=transform_out,\n            name=self.name,\n            description=self.description)\n\n    def _init_pt_tempo_backend',
+    '            hilbert_space_dimension=self._dimension,\n            dt=None,\n            transform_in=transform_in,\n            transform_out=transform_out,\n            name=self.name,\n            description=self.description)\n\n    def _init_pt_tempo_backend'))
+ok("C16", "set_initial_tensor written as a conditional expression on two paths", _sub(
+    PT, '        if initial_tensor is None:\n            self._initial_tensor = None\n        else:\n            self._initial_tensor = np.array(initial_tensor, dtype=NpDtype)',
+    '        if initial_tensor is not None:\n            self._initial_tensor = np.array(initial_tensor, dtype=NpDtype)\n            return\n        self._initial_tensor = None'))
+
+# ------------------------------------------------------------------ C10
+brk("C10", "import concurrent without futures", "I1", _sub(TEBDB, 'import concurrent.futures\n', 'import concurrent\n'))
+brk("C10", "results consumed as completed", "I2", _sub(
+    TEBDB, '                with concurrent.futures.ThreadPoolExecutor() as executor:\n                    output_datas = executor.map(apply_nn_gate, input_datas)',
+    '                with concurrent.futures.ThreadPoolExecutor() as executor:\n                    futs = [executor.submit(apply_nn_gate, d) for d in input_datas]\n                    output_datas = [f.result() for f in concurrent.futures.as_completed(futs)]'))
+ok("C10", "snapshot taken lazily during submission (still before any write-back)", _sub(
+    TEBDB, '            input_datas = []\n            for gate in gate_layer.gates:\n                input_datas.append(self._apply_nn_gate_get_data(gate))\n',
+    '            input_datas = (self._apply_nn_gate_get_data(gate) for gate in gate_layer.gates)\n'))
+brk("C10", "bound method submitted to the pool", "I2", _sub(
+    TEBDB, '                with concurrent.futures.ThreadPoolExecutor() as executor:\n                    output_datas = executor.map(apply_nn_gate, input_datas)',
+    '                with concurrent.futures.ThreadPoolExecutor() as executor:\n                    output_datas = executor.map(self.apply_nn_gate, gate_layer.gates)'))
+brk("C10", "write-back while the pool is still running", "I2", _sub(
+    TEBDB, '                with concurrent.futures.ThreadPoolExecutor() as executor:\n                    output_datas = executor.map(apply_nn_gate, input_datas)',
+    '                with concurrent.futures.ThreadPoolExecutor() as executor:\n                    output_datas = executor.map(apply_nn_gate, input_datas)\n                    for output_data in output_datas:\n                        self._apply_nn_gate_replace_gam_lam_gam(*output_data)\n                    output_datas = []'))
+brk("C10", "snapshot hands out the live lambda", "I2", _sub(
+    TEBDB, '        lam_m = self._lambdas[site_l+1].copy()', '        lam_m = self._lambdas[site_l+1]'))
+brk("C10", "unknown parallel mode falls back silently", "I3", _sub(
+    TEBDB, '            else:\n                raise NotImplementedError("Parallelisation method " \\\n                    + f"\'{self._parallel}\' is not implementedds!")',
+    '            else:\n                output_datas = [apply_nn_gate(d) for d in input_datas]'))
+brk("C10", "worker keeps a module-level cache", "I2", _multi(
+    _sub(TEBDB, 'NoneType = type(None)\n', 'NoneType = type(None)\n_LAST = {}\n'),
+    _sub(TEBDB, '    return _apply_nn_gate(*input_data)', '    _LAST["site"] = input_data[0]\n    return _apply_nn_gate(*input_data)')))
+
+# ------------------------------------------------------------------ C20
+brk("C20", "AugmentedMPS keeps the caller's layout", "A4", _sub(MM, 'np.array(g, dtype=NpDtype, order="C")', 'np.array(g, dtype=NpDtype)'))
+brk("C20", "compute_dynamics reshapes the caller's state in place", "A5", _sub(
+    SD, '    initial_ndarray = initial_state.reshape(hs_dim**2)\n    initial_ndarray.shape = tuple([1]*num_envs+[hs_dim**2])\n    current_node = tn.Node(initial_ndarray)\n    current_edges = current_node[:]\n\n    states = []\n    title = "--> Compute dynamics:"',
+    '    initial_ndarray = initial_state\n    initial_ndarray.shape = tuple([1]*num_envs+[hs_dim**2])\n    current_node = tn.Node(initial_ndarray)\n    current_edges = current_node[:]\n\n    states = []\n    title = "--> Compute dynamics:"'))
+brk("C20", "Dynamics.expectations normalises the caller's operator in place", "A5", _sub(
+    DY, '        if len(self) == 0:\n            return None, None\n        if operator is None:', '        if len(self) == 0:\n            return None, None\n        if operator is not None:\n            operator /= 1.0\n        if operator is None:'))
+brk("C20", "System keeps the caller's Hamiltonian and scales it", "A5", _sub(
+    SY, '    def get_unitary_propagators(self, dt, start_time, subdiv_limit, epsrel):\n        """Prepare propagator functions for the system. """\n',
+    '    def get_unitary_propagators(self, dt, start_time, subdiv_limit, epsrel):\n        """Prepare propagator functions for the system. """\n        dt *= 1\n'))
+brk("C20", "add_singleton called in place on caller data", "A5", _sub(
+    SD, '    initial_ndarray = initial_state.reshape(hs_dim**2)\n    initial_ndarray.shape = tuple([1]*num_envs+[hs_dim**2])\n    current_node = tn.Node(initial_ndarray)\n    current_edges = current_node[:]\n\n    states = []\n    title = "--> Compute dynamics:"',
+    '    from oqupy.util import add_singleton\n    add_singleton(initial_state, 0, copy=False)\n    initial_ndarray = initial_state.reshape(hs_dim**2)\n    initial_ndarray.shape = tuple([1]*num_envs+[hs_dim**2])\n    current_node = tn.Node(initial_ndarray)\n    current_edges = current_node[:]\n\n    states = []\n    title = "--> Compute dynamics:"'))
+brk("C20", "backend config default gets written", "A6", _sub(
+    TE, '        if backend_config is None:\n            self._backend_config = TEMPO_BACKEND_CONFIG\n        else:\n            self._backend_config = backend_config\n\n        self._dynamics = None\n        self._backend_instance = None\n\n        assert',
+    '        if backend_config is None:\n            self._backend_config = TEMPO_BACKEND_CONFIG\n        else:\n            self._backend_config = backend_config\n        self._backend_config["unique"] = unique\n\n        self._dynamics = None\n        self._backend_instance = None\n\n        assert'))
+brk("C20", "memoise TimeDependentSystem-like public attribute", "A1", _sub(
+    BC, '    def spectral_density(self, omega: ArrayLike) -> ArrayLike:', '    @lru_cache(maxsize=64)\n    def spectral_density(self, omega: ArrayLike) -> ArrayLike:'))
+brk("C20", "new closure over self stored on a copied class", "A2", _sub(
+    BC, '        self.correlation_function = tmp_correlation_function\n', '        self.correlation_function = tmp_correlation_function\n        self._conj = lambda tau: np.conj(self.correlation_function(tau))\n'))
+ok("C20", "AugmentedMPS uses ascontiguousarray", _sub(MM, 'np.array(g, dtype=NpDtype, order="C")', 'np.ascontiguousarray(np.array(g, dtype=NpDtype))'))
+
+# ------------------------------------------------------------------ C15
+brk("C15", "TimeDependentSystem propagators drop start_time (sampled variant)", "U1", _sub(
+    SY, '''                the time step `step`  """
+                t = start_time + step * dt
+                first_step = expm(self.liouvillian(t+dt/4.0)*dt/2.0)''', '''                the time step `step`  """
+                t = step * dt
+                first_step = expm(self.liouvillian(t+dt/4.0)*dt/2.0)'''))
+brk("C15", "second half propagator integrates from a start-free time", "U1", _sub(
+    SY, '''                second_step = expm(integrate.quad_vec(self.liouvillian,
+                                                      a=t+dt/2.0,
+                                                      b=t+dt,''', '''                second_step = expm(integrate.quad_vec(self.liouvillian,
+                                                      a=step*dt+dt/2.0,
+                                                      b=t+dt,'''))
+brk("C15", "field derivative evaluated at step*dt", "U1", _sub(
+    TE, '''        r"""Compute the field derivative for the time step `step`. """
+        t = self._time(step)''', '''        r"""Compute the field derivative for the time step `step`. """
+        t = float(step) * self._parameters.dt'''))
+brk("C15", "MeanFieldTempo._time doubles the start time", "U1", _sub(
+    TE, '''        return self._start_time + float(step)*self._parameters.dt
+
+    def _get_num_step(self,
+            start_step: int,
+            end_time: float) -> Tuple[int, int]:
+        """Return the number of steps required from start_step to reach
+        end_time"""
+        end_step = int(np.round(
+            (end_time - self._start_time)/self._parameters.dt, decimals=9))
+        num_step = max(0, end_step - start_step)
+        return num_step
+
+def _check_time''', '''        return 2*self._start_time + float(step)*self._parameters.dt
+
+    def _get_num_step(self,
+            start_step: int,
+            end_time: float) -> Tuple[int, int]:
+        """Return the number of steps required from start_step to reach
+        end_time"""
+        end_step = int(np.round(
+            (end_time - self._start_time)/self._parameters.dt, decimals=9))
+        num_step = max(0, end_step - start_step)
+        return num_step
+
+def _check_time'''))
+brk("C15", "float correlation times rounded without start_time", "U1", _sub(
+    SD, 'index_end = int(np.round((times[1] - start_time) / dt))', 'index_end = int(np.round(times[1] / dt))'))
+brk("C15", "control times rounded without start_time (post)", "U1", _sub(
+    CT, "a = np.round((self._control_times['post'] - start_time) / dt)", "a = np.round(self._control_times['post'] / dt)"))
+brk("C15", "compute_dynamics_with_field field time without start", "U1", _sub(
+    SD, '            t = start_time + step * dt\n\n            # -- get pre & post', '            t = step * dt\n\n            # -- get pre & post'))
+brk("C15", "nested correlation call forgets the start time", "U2", _sub(
+    SD, '        control=control,\n        start_time=start_time,\n        initial_state=initial_state,', '        control=control,\n        initial_state=initial_state,'))
+brk("C15", "controls closure forgets the start time", "U2", _sub(
+    SD, '''    def controls(step: int):
+        return control.get_controls(
+            step,
+            dt=dt,
+            start_time=start_time)''', '''    def controls(step: int):
+        return control.get_controls(
+            step,
+            dt=dt)'''))
+brk("C15", "dt and start_time swapped at get_propagators", "U2", _sub(
+    SD, '    propagators = system.get_propagators(dt, start_time, subdiv_limit,\n                                       liouvillian_epsrel)', '    propagators = system.get_propagators(start_time, dt, subdiv_limit,\n                                       liouvillian_epsrel)'))
+ok("C15", "propagator time via a helper temporary", _sub(
+    SY, '''                the time step `step`  """
+                t = start_time + step * dt
+                first_step = expm(self.liouvillian(t+dt/4.0)*dt/2.0)''', '''                the time step `step`  """
+                offset = step * dt
+                t = offset + start_time
+                first_step = expm(self.liouvillian(t+dt/4.0)*dt/2.0)'''))
+
+# ------------------------------------------------------------------ C09
+brk("C09", "compute_dynamics_with_field passes the time of the new step again", "F1", _sub(
+    SD, '                field = compute_field(\n                    t - dt, dt, previous_state_list, field, state_list)', '                field = compute_field(\n                    t, dt, previous_state_list, field, state_list)'))
+brk("C09", "final field uses the new time", "F1", _sub(
+    SD, 'final_field = compute_field(t - dt, dt, previous_state_list, field,', 'final_field = compute_field(t, dt, previous_state_list, field,'))
+brk("C09", "mean-field TEMPO evaluates rk1 with the next states", "F1", _sub(
+    TB, '        next_field = self._compute_field(current_step,\n                                         current_state_list, current_field,\n                                         next_state_list)',
+    '        next_field = self._compute_field(current_step,\n                                         next_state_list, current_field,\n                                         next_state_list)'))
+brk("C09", "mean-field TEMPO passes next_step to the field update", "F1", _sub(
+    TB, '        next_field = self._compute_field(current_step,\n', '        next_field = self._compute_field(next_step,\n'))
+ok("C09", "propagator field derivative from previous_state_list (already equal to state_list there)", _sub(
+    SD, '''                                    mean_field_system.field_eom(t, state_list,
+                                                                field))''', '''                                    mean_field_system.field_eom(t, previous_state_list,
+                                                                field))'''))
+brk("C09", "Euler instead of Heun in MeanFieldTempo", "F2", _sub(
+    TE, '''        rk2 = self._mean_field_system.field_eom(t + dt, next_state_list,
+                                                field + rk1 * dt)
+        return field + dt * (rk1 + rk2) / 2''', '''        rk2 = self._mean_field_system.field_eom(t + dt, next_state_list,
+                                                field + rk1 * dt)
+        return field + dt * rk1'''))
+brk("C09", "rk2 at the midpoint time", "F2", _sub(
+    SD, '''        rk2 = mean_field_system.field_eom(t + dt, next_state_list,
+                                          field + rk1 * dt)''', '''        rk2 = mean_field_system.field_eom(t + dt/2, next_state_list,
+                                          field + rk1 * dt)'''))
+brk("C09", "rk2 uses the unpredicted field", "F2", _sub(
+    SD, '''        rk2 = mean_field_system.field_eom(t + dt, next_state_list,
+                                          field + rk1 * dt)''', '''        rk2 = mean_field_system.field_eom(t + dt, next_state_list,
+                                          field)'''))
+ok("C09", "Heun written with halves", _sub(
+    TE, '        return field + dt * (rk1 + rk2) / 2\n\n    def _compute_field_derivative', '        return field + 0.5 * dt * rk1 + 0.5 * dt * rk2\n\n    def _compute_field_derivative'))
+
+# ------------------------------------------------------------------ C07
+brk("C07", "dt no longer forwarded to the ordered correlations", "V1", _sub(SD, '        "dt": dt_,\n', ''))
+brk("C07", "raw dt forwarded instead of the labelling one", "V1", _sub(SD, '        "dt": dt_,\n', '        "dt": dt,\n'))
+brk("C07", "indices by tail slice again", "V2", _sub(SD, 'inds = sch_indices[i][-1][mask]', 'inds = sch_indices[i][-1][-len(lt):]'))
+brk("C07", "indices by a different mask", "V2", _sub(SD, 'inds = sch_indices[i][-1][mask]', 'inds = sch_indices[i][-1][last_times > ft_max]'))
+brk("C07", "descending interval by slicing again", "V3", _sub(
+    SD, 'ret_times = np.arange(index_start, index_end+direction, direction)', 'ret_times = np.arange(\n                max_step + 1)[index_start:index_end+direction:direction]'))
+brk("C07", "anti-ordered result not transposed", "V4", _sub(SD, 'corr = (corr[0][::-1], corr[-1].transpose())', 'corr = (corr[0][::-1], corr[-1])'))
+brk("C07", "anti-ordered time specs not swapped", "V4", _sub(SD, '        ops_times = [times_b, times_a]', '        ops_times = [times_a, times_b]'))
+brk("C07", "result array initialised with zeros", "V5", _sub(SD, '    ret_correlations[:] = np.nan + 1.0j*np.nan\n', '    ret_correlations[:] = 0.0\n'))
+ok("C07", "mask hoisted under another name", _multi(
+    _sub(SD, '                mask = last_times >= ft_max\n                lt = last_times[mask]', '                keep = last_times >= ft_max\n                lt = last_times[keep]'),
+    _sub(SD, 'inds = sch_indices[i][-1][mask]', 'inds = sch_indices[i][-1][keep]')))
+
+# ------------------------------------------------------------------ C05 / C06
+brk("C05", "general eigensolver again", "E1", _sub(BA, 'w, v = np.linalg.eigh(tmp_coupling_operator)', 'w, v = np.linalg.eig(tmp_coupling_operator)'))
+brk("C05", "scipy general eig", "E1", _multi(
+    _sub(BA, 'import numpy as np\n', 'import numpy as np\nfrom scipy import linalg as sla\n'),
+    _sub(BA, 'w, v = np.linalg.eigh(tmp_coupling_operator)', 'w, v = sla.eig(tmp_coupling_operator)')))
+brk("C05", "TEMPO builds both superoperators the same way", "E2", _sub(
+    TB, '''        self._super_u_dagg = op.left_right_super(
+            self._unitary_transform.conjugate().T,
+            self._unitary_transform)''', '''        self._super_u_dagg = op.left_right_super(
+            self._unitary_transform,
+            self._unitary_transform.conjugate().T)'''))
+brk("C05", "PT-TEMPO file variant drops the conjugate", "E2", _sub(
+    PTT, '''            transform_in = left_right_super(unitary.conjugate().T,
+                                            unitary).T
+            transform_out = left_right_super(unitary,
+                                             unitary.conjugate().T).T
+        else:
+            transform_in = None
+            transform_out = None
+
+        if overwrite:''', '''            transform_in = left_right_super(unitary.T,
+                                            unitary).T
+            transform_out = left_right_super(unitary,
+                                             unitary.conjugate().T).T
+        else:
+            transform_in = None
+            transform_out = None
+
+        if overwrite:'''))
+brk("C05", "PT-TEMPO hands the transforms over swapped", "E2", _sub(
+    PTT, '''            dt=self._parameters.dt,
+            transform_in=transform_in,
+            transform_out=transform_out,
+            name=self.name,
+            description=self.description)
+
+    def _init_file_process_tensor''', '''            dt=self._parameters.dt,
+            transform_in=transform_out,
+            transform_out=transform_in,
+            name=self.name,
+            description=self.description)
+
+    def _init_file_process_tensor'''))
+ok("C05", "adjoint spelled conj().T", _sub(
+    TB, '''        self._super_u_dagg = op.left_right_super(
+            self._unitary_transform.conjugate().T,
+            self._unitary_transform)''', '''        self._super_u_dagg = op.left_right_super(
+            self._unitary_transform.T.conj(),
+            self._unitary_transform)'''))
+
+brk("C06", "west map built from both key columns", "R1", _sub(
+    BA, 'self._west_degeneracy_map = _row_degeneracy([self._coupling_comm])', 'self._west_degeneracy_map = _row_degeneracy([self._coupling_comm,\n                                                     self._coupling_acomm])'))
+brk("C06", "north map built from the commutator only", "R1", _sub(
+    BA, '''        self._north_degeneracy_map = _row_degeneracy([self._coupling_comm,
+                                                      self._coupling_acomm])''', '''        self._north_degeneracy_map = _row_degeneracy([self._coupling_comm])'''))
+brk("C06", "Tempo selector: pair order swapped", "R1", _sub(
+    TE, '''            tmp_deg_positions = [tmp_north_deg_positions,
+                                 tmp_west_deg_positions]
+        else:
+            tmp_deg_positions = None
+
+        return influence_matrix(''', '''            tmp_deg_positions = [tmp_west_deg_positions,
+                                 tmp_north_deg_positions]
+        else:
+            tmp_deg_positions = None
+
+        return influence_matrix('''))
+brk("C06", "PtTempo representative count from the other map", "R1", _sub(
+    PTT, '''                self._bath.west_degeneracy_map == i)[0][0] for i in \\
+                    range(np.max(self._bath.west_degeneracy_map)+1)])''', '''                self._bath.west_degeneracy_map == i)[0][0] for i in \\
+                    range(np.max(self._bath.north_degeneracy_map)+1)])'''))
+brk("C06", "influence_matrix unpacks west first", "R1", _sub(
+    TE, '            north_deg_positions, west_deg_positions = deg_positions\n', '            west_deg_positions, north_deg_positions = deg_positions\n'))
+brk("C06", "influence_matrix dk=0 reduced with west representatives", "R1", _sub(
+    TE, '            north_deg_positions = deg_positions[0]\n', '            north_deg_positions = deg_positions[1]\n'))
+brk("C06", "PtTempo sum vectors sized by the other map", "R1", _sub(
+    PTT, '''            sum_west = np.ones(np.max(self._bath.west_degeneracy_map)+1,
+                               dtype=float)
+            degeneracy_maps = [self._bath.north_degeneracy_map,''', '''            sum_west = np.ones(np.max(self._bath.north_degeneracy_map)+1,
+                               dtype=float)
+            degeneracy_maps = [self._bath.north_degeneracy_map,'''))
+brk("C06", "TEMPO backend unpacks the maps in the wrong order", "R1", _sub(
+    TB, '            north_degeneracy_map, west_degeneracy_map =\\\n                    self._degeneracy_maps', '            west_degeneracy_map, north_degeneracy_map =\\\n                    self._degeneracy_maps'))
+brk("C06", "PT backend reads the reduced influence at the west class", "R1", _sub(
+    PTB, '''                        tmp_mps[i1][north_degeneracy_map[i1]] = \\
+                            infl[north_degeneracy_map[i1]]/ scale''', '''                        tmp_mps[i1][north_degeneracy_map[i1]] = \\
+                            infl[west_degeneracy_map[i1]]/ scale'''))
+brk("C06", "_row_degeneracy groups columns instead of rows", "R2", _sub(
+    BA, 'np.unique(mat.T,return_inverse=True,axis=0)[1]', 'np.unique(mat,return_inverse=True,axis=0)[1]'))
+brk("C06", "_row_degeneracy without rounding", "R2", _sub(
+    BA, '    mat = np.array(matrix).round(decimals=DEFAULT_TOLERANCE_DEGENERACY)\n', '    mat = np.array(matrix)\n'))
+ok("C06", "backend locals renamed", _multi(
+    _sub(PTB, 'north_degeneracy_map, west_degeneracy_map = self._degeneracy_maps', 'nmap, wmap = self._degeneracy_maps'),
+    _sub(PTB, 'north_degeneracy_map', 'nmap', count=100), _sub(PTB, 'west_degeneracy_map', 'wmap', count=100)))
+
+# ------------------------------------------------------------------ C12
+brk("C12", "rectangle closed form with a wrong argument", "L1", _sub(
+    BC, '- self.eta_function(time_2 - delta, **kwargs) \\', '- self.eta_function(time_2 + delta, **kwargs) \\'))
+brk("C12", "rectangle closed form with a wrong sign", "L1", _sub(
+    BC, '+ self.eta_function(time_1 - delta, **kwargs)\n        else:', '- self.eta_function(time_1 - delta, **kwargs)\n        else:'))
+brk("C12", "square closed form with coefficient 1", "L1", _sub(
+    BC, '- 2.0 * self.eta_function(time_1, **kwargs) \\', '- self.eta_function(time_1, **kwargs) \\'))
+brk("C12", "quadrature rectangle integrates to 2*delta", "L1", _sub(
+    BC, "'rectangle': lambda x: delta, }", "'rectangle': lambda x: 2*delta, }"))
+brk("C12", "Gibbs coefficients use the triangle for k == 1", "L1", _sub(
+    TE, 'shape = "upper-triangle" if k==0 else "square"', 'shape = "upper-triangle" if k==1 else "square"'))
+brk("C12", "influence_matrix uses the triangle away from zero", "L1", _sub(
+    TE, '    if dk == 0:\n        time_1 = 0.0\n        time_2 = None\n        shape = "upper-triangle"', '    if dk == 0:\n        time_1 = dt\n        time_2 = None\n        shape = "upper-triangle"'))
+brk("C12", "unknown shape name at a call site", "L2", _sub(TE, '        shape = "rectangle"\n', '        shape = "rect"\n'))
+brk("C12", "time_2 passed with the square shape", "L2", _sub(
+    TE, '        time_1 = float(dk) * dt\n        time_2 = None\n        shape = "square"', '        time_1 = float(dk) * dt\n        time_2 = time_1 + dt\n        shape = "square"'))
+brk("C12", "Matsubara 2D integral returned complex", "L3", _sub(
+    BC, '        if matsubara:\n            integral = integral.real\n        return integral\n\n\nclass PowerLawSD', '        return integral\n\n\nclass PowerLawSD'))
+brk("C12", "eta_function skips the tail for the gaussian cutoff", "L4", _sub(
+    BC, '''        if self.cutoff_type != "hard":
+            integral += _complex_integral(integrand,
+                                          a=self.cutoff,
+                                          b=np.inf,
+                                          epsrel=epsrel,
+                                          limit=subdiv_limit)
+        if matsubara:
+            integral = integral.real
+        return -integral''', '''        if self.cutoff_type == "exponential":
+            integral += _complex_integral(integrand,
+                                          a=self.cutoff,
+                                          b=np.inf,
+                                          epsrel=epsrel,
+                                          limit=subdiv_limit)
+        if matsubara:
+            integral = integral.real
+        return -integral'''))
+brk("C12", "eta_function loses the overflow guard branch", "L4", _sub(
+    BC, '''                if np.exp(-w / self.temperature) > np.finfo(float).eps:
+                    inte = self._spectral_density(w) / w ** 2 \\''', '''                if True:
+                    inte = self._spectral_density(w) / w ** 2 \\'''))
+
+# ------------------------------------------------------------------ C08
+brk("C08", "backward pass applies environments in forward order", "H2", _sub(
+    GR, 'current_node, current_edges, pt_mpos, reverse=True)', 'current_node, current_edges, pt_mpos)'))
+brk("C08", "bond legs joined by axis position with reversed order", "H2", _sub(
+    GR, 'fwd_edges[i] ^ edge_dict[current_edges[i]]', 'fwd_edges[i] ^ backprop_tensor[i]'))
+brk("C08", "second half propagator not transposed in the backward pass", "H2", _sub(
+    GR, 'current_node, current_edges, second_half_prop.T)', 'current_node, current_edges, second_half_prop)'))
+brk("C08", "backward pass swaps the two half propagators", "H2", _multi(
+    _sub(GR, 'current_node, current_edges, second_half_prop.T)', 'current_node, current_edges, first_half_prop.T)'),
+    _sub(GR, 'current_node, current_edges, first_half_prop.T)\n\n            if post_measurement_control', 'current_node, current_edges, second_half_prop.T)\n\n            if post_measurement_control')))
+brk("C08", "backward pass applies pre control before post control", "H2", _sub(
+    GR, '''            if post_measurement_control is not None:
+                current_node, current_edges = _apply_system_superoperator(
+                    current_node, current_edges, post_measurement_control.T)
+
+            if pre_measurement_control is not None:
+                current_node, current_edges = _apply_system_superoperator(
+                    current_node, current_edges, pre_measurement_control.T)
+
+            forwardprop_tensor = forwardprop_derivs_list[step-1]''', '''            if pre_measurement_control is not None:
+                current_node, current_edges = _apply_system_superoperator(
+                    current_node, current_edges, pre_measurement_control.T)
+
+            if post_measurement_control is not None:
+                current_node, current_edges = _apply_system_superoperator(
+                    current_node, current_edges, post_measurement_control.T)
+
+            forwardprop_tensor = forwardprop_derivs_list[step-1]'''))
+brk("C08", "backprop MPO swaps only the system legs", "H2", _sub(
+    SD, '        pt_mpo = np.swapaxes(pt_mpo, 0, 1) # internal bond legs\n', ''))
+brk("C08", "derivative propagators read the wrong half step", "H1", _sub(
+    SY, '''            pre_params=parameters[2*step]
+            post_params= parameters[2*step+1]
+            pre_prop_derivs=pd(pre_params)''', '''            pre_params=parameters[2*step+1]
+            post_params= parameters[2*step]
+            pre_prop_derivs=pd(pre_params)'''))
+brk("C08", "propagators read parameters[2*step+2] for the second half", "H1", _sub(
+    SY, 'post_liou=self.liouvillian(*(list(parameters[2*step+1][:])))', 'post_liou=self.liouvillian(*(list(parameters[2*step+2][:])))'))
+brk("C08", "chain rule pairs the derivative with its own half propagator", "H1", _sub(
+    GR, '''                total_derivs[2*i+1][j] = combine_derivs(
+                    adjoint_tensor[i],
+                    first_half_prop.T,
+                    second_half_prop_derivs[j].T)''', '''                total_derivs[2*i+1][j] = combine_derivs(
+                    adjoint_tensor[i],
+                    first_half_prop_derivs[j].T,
+                    second_half_prop.T)'''))
+brk("C08", "forward tensor stored before the post control", "H3", _multi(
+    _sub(GR, '''            forwardprop_derivs_list.append(
+                tn.replicate_nodes([current_node])[0])
+
+''', ''),
+    _sub(GR, '''            # -- apply post measurement control --
+            if post_measurement_control is not None:
+                current_node, current_edges = _apply_system_superoperator(
+                    current_node, current_edges, post_measurement_control)
+
+            # -- propagate one time step --
+            first_half_prop, second_half_prop = propagators(step)
+
+            pt_mpos = _get_pt_mpos(process_tensors, step)
+            mpo_list.append(pt_mpos)''', '''            forwardprop_derivs_list.append(
+                tn.replicate_nodes([current_node])[0])
+
+            # -- apply post measurement control --
+            if post_measurement_control is not None:
+                current_node, current_edges = _apply_system_superoperator(
+                    current_node, current_edges, post_measurement_control)
+
+            # -- propagate one time step --
+            first_half_prop, second_half_prop = propagators(step)
+
+            pt_mpos = _get_pt_mpos(process_tensors, step)
+            mpo_list.append(pt_mpos)''')))
+ok("C08", "reversal written with reversed()", _sub(
+    SD, '''    indexed_pt_mpos = list(enumerate(pt_mpos))
+    if reverse:
+        # backpropagation: the system leg passes the environments in the
+        # opposite order (each MPO still attaches to its own bond leg)
+        indexed_pt_mpos.reverse()
+''', '''    indexed_pt_mpos = list(enumerate(pt_mpos))
+    if reverse:
+        indexed_pt_mpos = list(reversed(indexed_pt_mpos))
+'''))
+
+# ------------------------------------------------------------------ C02
+brk("C02", "PT-TEMPO takes comm for acomm", "S1", _sub(
+    PTT, '            coupling_acomm=self._bath.coupling_acomm,\n            coupling_comm=self._bath.coupling_comm,', '            coupling_acomm=self._bath.coupling_comm,\n            coupling_comm=self._bath.coupling_acomm,'))
+brk("C02", "Tempo influence shifts dk", "S1", _sub(
+    TE, '        return influence_matrix(\n            dk,\n            parameters=self._parameters,\n            correlations=self._correlations,', '        return influence_matrix(\n            dk + 0,\n            parameters=self._parameters,\n            correlations=self._correlations,')
+    if False else _sub(TE, '        return influence_matrix(\n            dk,\n            parameters=self._parameters,\n            correlations=self._correlations,', '        return influence_matrix(\n            abs(dk),\n            parameters=self._parameters,\n            correlations=self._correlations,'))
+brk("C02", "MeanFieldTempo ignores unique for deg_positions", "S1", _sub(
+    TE, '''                coupling_comm=bath.coupling_comm,
+                deg_positions=tmp_deg_positions)''', '''                coupling_comm=bath.coupling_comm,
+                deg_positions=None)'''))
+brk("C02", "TempoBackend propagator index off by one", "S2", _sub(
+    TB, 'prop_1, prop_2 = self._propagators(self._step)', 'prop_1, prop_2 = self._propagators(next_step)'))
+brk("C02", "compute_dynamics uses the MPO of the next step", "S2", _sub(
+    SD, '            pt_mpos = _get_pt_mpos(process_tensors, step)\n\n            current_node, current_edges = _apply_system_superoperator(\n                current_node, current_edges, first_half_prop)', '            pt_mpos = _get_pt_mpos(process_tensors, step+1)\n\n            current_node, current_edges = _apply_system_superoperator(\n                current_node, current_edges, first_half_prop)'))
+brk("C02", "PT-TEBD uses the MPO of the current step", "S2", _sub(
+    TEBDB, 'pt_tensor = process_tensors[site].get_mpo_tensor(step-1)', 'pt_tensor = process_tensors[site].get_mpo_tensor(step)'))
+brk("C02", "mean-field TEMPO mixes up dt and start_time", "S3", _sub(
+    TE, '''        propagators_list = [system.get_propagators(
+                self._parameters.dt,
+                self._start_time,''', '''        propagators_list = [system.get_propagators(
+                self._start_time,
+                self._parameters.dt,'''))
+brk("C02", "Tempo hands dkmax over as epsrel slot", "S3", _sub(
+    TE, '                sum_west,\n                dkmax,\n                epsrel,\n                config=self._backend_config,\n                degeneracy_maps=degeneracy_maps,\n                dim=dim)', '                sum_west,\n                epsrel,\n                dkmax,\n                config=self._backend_config,\n                degeneracy_maps=degeneracy_maps,\n                dim=dim)'))
+brk("C02", "PT-TEMPO memory from a constant", "S4", _sub(
+    PTT, '        dkmax = self._parameters.dkmax\n        if dkmax is None:\n            dkmax = self._num_steps', '        dkmax = self._parameters.dkmax\n        if dkmax is None:\n            dkmax = 100'))
